@@ -125,7 +125,7 @@ def run(ctx):
             except Exception as exc:
                 ctx.violation('convolve-raised:' + style, 'convolve_model_dir raised: %r' % (exc,), dict(wit0, style=style))
                 continue
-            wrote = sorted(set(os.path.relpath(p, d) for p in tr.written(under=d)))
+            wrote = sorted(set(os.path.relpath(p, d) for p in tr.produced(under=d)))
             want = sorted('convolved/%s.fits' % f.name for f in filters)
             if wrote != want:
                 ctx.violation('files-written:' + style, 'convolve_model_dir did not write exactly one file per filter',
